@@ -497,6 +497,7 @@ func runC05(c *eng.Ctx) {
 
 	// ---- R05.7 crash-safe ordering of destructive steps
 	c.Rule("R05.7", "K2")
+	ruleTruncateDeletesNewestFirst(c)
 	ruleSegmentDelete(c)
 	if fn := c.Fn(cl + "(*commitLog).Truncate"); fn != nil {
 		// the epoch cache is trimmed after the log: recovery trims epochs beyond the log end (ClearLatest in New), but has no
